@@ -271,6 +271,224 @@ def _class_cm(cls: ast.ClassDef):
     return ext, init, types, selfn, tname, vname, rest, stored
 
 
+def _class_cm_state(cls: ast.ClassDef):
+    """A context-manager class that only *holds state*: __enter__ returns self (or nothing), __exit__ ignores its three
+    exception arguments and never suppresses.  Returns (exit function, self name, exit statements, field order,
+    field -> default expr | None, init | None, stored: field -> init parameter) or None."""
+    meths = {n.name: n for n in cls.body if isinstance(n, (ast.FunctionDef, ast.AsyncFunctionDef))}
+    ent = meths.get("__enter__") or meths.get("__aenter__")
+    ext = meths.get("__exit__") or meths.get("__aexit__")
+    if ent is None or ext is None or isinstance(ent, ast.AsyncFunctionDef) != isinstance(ext, ast.AsyncFunctionDef):
+        return None
+    if set(meths) - {"__enter__", "__aenter__", "__exit__", "__aexit__", "__init__"}:
+        return None  # other methods could be called on the object: not a plain state holder
+    eb = _strip_doc(ent.body)
+    if not all(isinstance(x, ast.Pass) or (isinstance(x, ast.Return) and (x.value is None or (isinstance(x.value, ast.Name) and x.value.id == ent.args.args[0].arg) or (isinstance(x.value, ast.Constant) and x.value.value is None))) for x in eb):
+        return None
+    params = [x.arg for x in ext.args.args]
+    if len(params) != 4 or ext.args.vararg or ext.args.kwarg:
+        return None
+    selfn = params[0]
+    body = _strip_doc(ext.body)
+    if body and isinstance(body[-1], ast.Return) and (body[-1].value is None or (isinstance(body[-1].value, ast.Constant) and not body[-1].value.value)):
+        body = body[:-1]
+    for b in body:
+        for n in ast.walk(b):
+            if isinstance(n, ast.Return) or isinstance(n, (ast.Yield, ast.YieldFrom)):
+                return None
+            if isinstance(n, ast.Name) and n.id in params[1:]:
+                return None  # looks at the exception: the conditional form (_class_cm)
+            if isinstance(n, ast.Name) and n.id == selfn and not isinstance(getattr(n, "ctx", None), ast.Load):
+                return None
+    init = meths.get("__init__")
+    order: list = []
+    defaults: dict = {}
+    stored: dict = {}
+    is_dc = any((isinstance(d, ast.Name) and d.id == "dataclass") or (isinstance(d, ast.Attribute) and d.attr == "dataclass") or (isinstance(d, ast.Call) and ((isinstance(d.func, ast.Name) and d.func.id == "dataclass") or (isinstance(d.func, ast.Attribute) and d.func.attr == "dataclass"))) for d in cls.decorator_list)
+    if init is not None:
+        for st_ in _strip_doc(init.body):
+            if isinstance(st_, (ast.Assign, ast.AnnAssign)):
+                tg = st_.targets[0] if isinstance(st_, ast.Assign) else st_.target
+                if isinstance(tg, ast.Attribute) and isinstance(tg.value, ast.Name) and tg.value.id == init.args.args[0].arg and isinstance(st_.value, ast.Name):
+                    stored[tg.attr] = st_.value.id
+                    order.append(tg.attr)
+                    continue
+            return None
+    elif is_dc:
+        for st_ in cls.body:
+            if isinstance(st_, ast.AnnAssign) and isinstance(st_.target, ast.Name):
+                if isinstance(st_.value, ast.Call):
+                    return None  # field(...) declarations
+                order.append(st_.target.id)
+                defaults[st_.target.id] = st_.value
+            elif isinstance(st_, ast.Assign):
+                return None
+    else:
+        return None
+    # every use of self in the exit body is self.<field>
+    for b in body:
+        attrs_ok = {id(n.value) for n in ast.walk(b) if isinstance(n, ast.Attribute) and isinstance(n.value, ast.Name) and n.value.id == selfn and n.attr in order}
+        for n in ast.walk(b):
+            if isinstance(n, ast.Name) and n.id == selfn and id(n) not in attrs_ok:
+                return None
+    return ext, selfn, body, order, defaults, init, stored
+
+
+class _FieldToLocal(ast.NodeTransformer):
+    """`<obj>.<field>` -> local name (loads and stores)."""
+
+    def __init__(self, obj: str, locals_: dict) -> None:
+        self.obj, self.locals = obj, locals_
+
+    def visit_Attribute(self, node: ast.Attribute):
+        if isinstance(node.value, ast.Name) and node.value.id == self.obj and node.attr in self.locals:
+            return ast.copy_location(ast.Name(id=self.locals[node.attr], ctx=node.ctx), node)
+        return self.generic_visit(node)
+
+
+class _Rename(ast.NodeTransformer):
+    def __init__(self, ren: dict) -> None:
+        self.ren = ren
+
+    def visit_Name(self, node: ast.Name):
+        if node.id in self.ren:
+            return ast.copy_location(ast.Name(id=self.ren[node.id], ctx=node.ctx), node)
+        return node
+
+
+class _StateCMDesugar(ast.NodeTransformer):
+    """`with C(a, b) as v: BODY` for a state-holding manager class C of the same module:
+
+        __cm1_x = a ; __cm1_y = b
+        try:
+            BODY            (v.x -> __cm1_x)
+        finally:
+            <exit body>     (self.x -> __cm1_x, its own locals renamed)
+        ... v.x after the block -> __cm1_x
+
+    Only when every use of `v` in the enclosing function is `v.<field>`."""
+
+    def __init__(self, tree: ast.Module) -> None:
+        self.classes = {}
+        for n in tree.body:
+            if isinstance(n, ast.ClassDef):
+                c = _class_cm_state(n)
+                if c is not None:
+                    self.classes[n.name] = c
+        self.count = 0
+
+    def _function(self, fn):
+        self.generic_visit(fn)
+        import copy
+
+        own = []  # with statements of this function (not of nested defs)
+
+        def collect(stmts):
+            for s in stmts:
+                if isinstance(s, (ast.FunctionDef, ast.AsyncFunctionDef, ast.ClassDef)):
+                    continue
+                if isinstance(s, (ast.With, ast.AsyncWith)):
+                    own.append(s)
+                for fld in ("body", "orelse", "finalbody"):
+                    collect(getattr(s, fld, []) or [])
+                for h in getattr(s, "handlers", []) or []:
+                    collect(h.body)
+
+        collect(fn.body)
+        for w in own:
+            if len(w.items) != 1:
+                continue
+            it = w.items[0]
+            call = it.context_expr
+            if not (isinstance(call, ast.Call) and isinstance(call.func, ast.Name) and call.func.id in self.classes):
+                continue
+            ext, selfn, xbody, order, defaults, init, stored = self.classes[call.func.id]
+            if isinstance(ext, ast.AsyncFunctionDef) != isinstance(w, ast.AsyncWith):
+                continue
+            v = it.optional_vars.id if isinstance(it.optional_vars, ast.Name) else None
+            if it.optional_vars is not None and v is None:
+                continue
+            # constructor arguments -> fields
+            if init is not None:
+                amap = _bind(init, call, skip_self=True)
+                if amap is None:
+                    continue
+                given = {fld: amap[prm] for fld, prm in stored.items() if prm in amap}
+            else:
+                if any(isinstance(a, ast.Starred) for a in call.args) or any(k.arg is None for k in call.keywords) or len(call.args) > len(order):
+                    continue
+                given = dict(zip(order, call.args))
+                for k in call.keywords:
+                    given[k.arg] = k.value
+                for fld in order:
+                    if fld not in given and defaults.get(fld) is not None:
+                        given[fld] = defaults[fld]
+            if set(given) != set(order):
+                continue
+            # every use of v in the function is v.<field>
+            if v is not None:
+                fine = {id(n.value) for n in ast.walk(fn) if isinstance(n, ast.Attribute) and isinstance(n.value, ast.Name) and n.value.id == v and n.attr in order}
+                uses = [n for n in ast.walk(fn) if isinstance(n, ast.Name) and n.id == v and n is not it.optional_vars]
+                if any(id(n) not in fine for n in uses):
+                    continue
+            self.count += 1
+            k = self.count
+            locs = {fld: f"__cm{k}_{fld}" for fld in order}
+            # a field initialised from a plain name of the function that is never re-bound and never read again once
+            # the field has been stored to *is* that name (the manager object adds nothing but a second handle)
+            in_loop = any(isinstance(lp, (ast.For, ast.AsyncFor, ast.While)) and any(x is w for x in ast.walk(lp)) for lp in ast.walk(fn))
+            fn_stores = {n.id for n in ast.walk(fn) if isinstance(n, ast.Name) and isinstance(n.ctx, ast.Store)}
+            xstores = {n.attr for b in xbody for n in ast.walk(b) if isinstance(n, ast.Attribute) and isinstance(n.value, ast.Name) and n.value.id == selfn and isinstance(n.ctx, ast.Store)}
+            for fld in order:
+                g0 = given[fld]
+                if not isinstance(g0, ast.Name) or g0.id in fn_stores or in_loop or fld in xstores:
+                    continue
+                if sum(1 for f2 in order if isinstance(given[f2], ast.Name) and given[f2].id == g0.id) != 1:
+                    continue
+                st_lines = [s_.end_lineno or s_.lineno for s_ in ast.walk(fn) if isinstance(s_, ast.stmt) and v is not None and any(isinstance(n, ast.Attribute) and isinstance(n.value, ast.Name) and n.value.id == v and n.attr == fld and isinstance(n.ctx, ast.Store) for n in ast.walk(s_)) and not isinstance(s_, (ast.With, ast.AsyncWith, ast.Try, ast.If, ast.FunctionDef, ast.AsyncFunctionDef))]
+                first_store = min(st_lines) if st_lines else None
+                reads = [n for n in ast.walk(fn) if isinstance(n, ast.Name) and n.id == g0.id and isinstance(n.ctx, ast.Load)]
+                if first_store is None or all(n.lineno <= first_store for n in reads):
+                    locs[fld] = g0.id
+            pre = [ast.Assign(targets=[ast.Name(id=locs[fld], ctx=ast.Store())], value=given[fld], lineno=w.lineno) for fld in order if not (isinstance(given[fld], ast.Name) and given[fld].id == locs[fld])]
+            xb = [copy.deepcopy(b) for b in xbody]
+            # leading `local = self.<field>` statements of the exit body: the local is the field
+            direct: dict = {}
+            while xb and isinstance(xb[0], ast.Assign) and len(xb[0].targets) == 1 and isinstance(xb[0].targets[0], ast.Name) and isinstance(xb[0].value, ast.Attribute) and isinstance(xb[0].value.value, ast.Name) and xb[0].value.value.id == selfn and xb[0].value.attr in order:
+                nm0, f0 = xb[0].targets[0].id, xb[0].value.attr
+                later_store = any(isinstance(n, ast.Name) and n.id == nm0 and isinstance(n.ctx, ast.Store) for b in xb[1:] for n in ast.walk(b))
+                if later_store or f0 in xstores:
+                    break
+                direct[nm0] = locs[f0]
+                xb = xb[1:]
+            own_locals = {n.id for b in xb for n in ast.walk(b) if isinstance(n, ast.Name) and isinstance(n.ctx, ast.Store)}
+            ren = {nm: f"__cm{k}_x_{nm}" for nm in own_locals}
+            ren.update(direct)
+            xb = [_Rename(ren).visit(_FieldToLocal(selfn, locs).visit(b)) for b in xb]
+            tr = ast.Try(body=w.body, handlers=[], orelse=[], finalbody=xb or [ast.Pass()])
+            new = pre + [tr]
+            for s in new:
+                _mark(s, w)
+            # splice
+            self._replace(fn, w, new)
+            if v is not None:
+                _FieldToLocal(v, locs).visit(fn)
+        return fn
+
+    @staticmethod
+    def _replace(fn, old, new) -> None:
+        for parent in ast.walk(fn):
+            for fld in ("body", "orelse", "finalbody"):
+                lst = getattr(parent, fld, None)
+                if isinstance(lst, list) and old in lst:
+                    i = lst.index(old)
+                    lst[i : i + 1] = new
+                    return
+
+    visit_FunctionDef = _function
+    visit_AsyncFunctionDef = _function
+
+
 class _CMDesugar(ast.NodeTransformer):
     def __init__(self, tree: ast.Module) -> None:
         self.gens = {}
@@ -336,12 +554,223 @@ class _CMDesugar(ast.NodeTransformer):
     visit_AsyncWith = _rewrite
 
 
-def desugar(tree: ast.Module) -> ast.Module:
+def _getter_constants(tree: ast.Module) -> bool:
+    """Module-level `NAME = attrgetter("a", "b")` / `operator.itemgetter(k)`  ->  `def NAME(obj): return (obj.a, obj.b)`.
+
+    The constant is a pure accessor function; written as a def it is resolved, called, written out and evaluated like
+    any other private helper (also when it is handed to a helper as an argument)."""
+    names: dict[str, str] = {}  # local name -> "attrgetter" | "itemgetter"
+    opmods: set[str] = set()
+    for st in tree.body:
+        if isinstance(st, ast.ImportFrom) and st.module == "operator" and not st.level:
+            for a in st.names:
+                if a.name in ("attrgetter", "itemgetter"):
+                    names[a.asname or a.name] = a.name
+        elif isinstance(st, ast.Import):
+            for a in st.names:
+                if a.name == "operator":
+                    opmods.add(a.asname or "operator")
+    if not names and not opmods:
+        return False
     changed = False
+    for i, st in enumerate(tree.body):
+        if isinstance(st, ast.Assign) and len(st.targets) == 1 and isinstance(st.targets[0], ast.Name):
+            tgt, val = st.targets[0].id, st.value
+        elif isinstance(st, ast.AnnAssign) and isinstance(st.target, ast.Name) and st.value is not None:
+            tgt, val = st.target.id, st.value
+        else:
+            continue
+        if not (isinstance(val, ast.Call) and not val.keywords and val.args and all(isinstance(a, ast.Constant) for a in val.args)):
+            continue
+        fn = val.func
+        kind = names.get(fn.id) if isinstance(fn, ast.Name) else fn.attr if isinstance(fn, ast.Attribute) and isinstance(fn.value, ast.Name) and fn.value.id in opmods and fn.attr in ("attrgetter", "itemgetter") else None
+        if kind is None:
+            continue
+        if kind == "attrgetter" and not all(isinstance(a.value, str) and all(p.isidentifier() for p in a.value.split(".")) for a in val.args):
+            continue
+
+        def access(a: ast.Constant) -> ast.expr:
+            base: ast.expr = ast.Name(id="__obj", ctx=ast.Load())
+            if kind == "attrgetter":
+                for part in a.value.split("."):
+                    base = ast.Attribute(value=base, attr=part, ctx=ast.Load())
+                return base
+            return ast.Subscript(value=base, slice=ast.Constant(value=a.value), ctx=ast.Load())
+
+        elts = [access(a) for a in val.args]
+        ret = elts[0] if len(elts) == 1 else ast.Tuple(elts=elts, ctx=ast.Load())
+        fd = ast.FunctionDef(
+            name=tgt,
+            args=ast.arguments(posonlyargs=[], args=[ast.arg(arg="__obj")], vararg=None, kwonlyargs=[], kw_defaults=[], kwarg=None, defaults=[]),
+            body=[ast.Return(value=ret)],
+            decorator_list=[],
+            returns=None,
+            type_comment=None,
+            type_params=[],
+        )
+        ast.copy_location(fd, st)
+        for n in ast.walk(fd):
+            if not hasattr(n, "lineno"):
+                ast.copy_location(n, st)
+        fd.end_lineno = getattr(st, "end_lineno", st.lineno)
+        tree.body[i] = fd
+        changed = True
+    return changed
+
+
+class _ExitStackDesugar(ast.NodeTransformer):
+    """`async with AsyncExitStack() as stack:` whose callbacks are registered by top-level statements of the block.
+
+        async with AsyncExitStack() as stack:        PRE
+            PRE                                       try:
+            stack.push_async_callback(cb, a)    ->        BODY
+            BODY                                      except BaseException:
+            stack.pop_all()                               await cb(a)
+            POST                                          raise
+                                                      POST
+    Without `pop_all()` the callback runs on every exit: `try: BODY POST finally: await cb(a)`.  Several registrations
+    nest (last registered runs first).  Any other use of the stack object (handed to a call, `enter_async_context`,
+    registrations inside branches or loops) is left alone - the rules that meet it say that they do not model it."""
+
+    STACKS = ("AsyncExitStack", "ExitStack")
+    PUSH = {"push_async_callback": True, "callback": False}
+
+    def __init__(self) -> None:
+        self.count = 0
+
+    def _rewrite(self, node):
+        if len(node.items) != 1:
+            return None
+        it = node.items[0]
+        ce = it.context_expr
+        if not (isinstance(ce, ast.Call) and not ce.args and not ce.keywords and isinstance(it.optional_vars, ast.Name)):
+            return None
+        nm = ce.func.id if isinstance(ce.func, ast.Name) else ce.func.attr if isinstance(ce.func, ast.Attribute) else None
+        if nm not in self.STACKS:
+            return None
+        sv = it.optional_vars.id
+
+        def kind(st):
+            """('push', call, is_async) | ('pop',) | ('plain',) | None (unsupported use of the stack)."""
+            uses = [n for n in ast.walk(st) if isinstance(n, ast.Name) and n.id == sv]
+            if not uses:
+                return ("plain",)
+            if isinstance(st, ast.Expr) and isinstance(st.value, ast.Call) and isinstance(st.value.func, ast.Attribute) and isinstance(st.value.func.value, ast.Name) and st.value.func.value.id == sv and len(uses) == 1:
+                c = st.value
+                if c.func.attr in self.PUSH and c.args and not c.keywords:
+                    return ("push", c, self.PUSH[c.func.attr])
+                if c.func.attr == "pop_all" and not c.args and not c.keywords:
+                    return ("pop",)
+            return None
+
+        kinds = [kind(st) for st in node.body]
+        if any(k is None for k in kinds):
+            return None
+        if sum(1 for k in kinds if k[0] == "pop") > 1:
+            return None
+
+        def build(i: int) -> list:
+            """Statements for node.body[i:], with the callbacks registered before i already wrapped around."""
+            out: list = []
+            while i < len(node.body):
+                k = kinds[i]
+                st = node.body[i]
+                if k[0] == "plain":
+                    out.append(st)
+                    i += 1
+                    continue
+                if k[0] == "pop":
+                    raise _PopHere(i)
+                # push: everything after it is protected by the callback
+                c, is_async = k[1], k[2]
+                cb_call: ast.expr = ast.Call(func=c.args[0], args=list(c.args[1:]), keywords=[])
+                if is_async:
+                    cb_call = ast.Await(value=cb_call)
+                cb_stmt = ast.Expr(value=cb_call)
+                try:
+                    inner = build(i + 1)
+                    tr = ast.Try(body=inner or [ast.Pass()], handlers=[], orelse=[], finalbody=[cb_stmt])
+                    out.append(tr)
+                    return out
+                except _PopHere as ph:
+                    # released at ph.i: callbacks run only if an exception leaves the statements before it
+                    prot = build_until(i + 1, ph.i)
+                    h = ast.ExceptHandler(type=ast.Name(id="BaseException", ctx=ast.Load()), name=None, body=[cb_stmt, ast.Raise(exc=None, cause=None)])
+                    out.append(ast.Try(body=prot or [ast.Pass()], handlers=[h], orelse=[], finalbody=[]))
+                    rest_kinds = kinds[ph.i + 1 :]
+                    if any(k2[0] != "plain" for k2 in rest_kinds):
+                        raise _Unsupported from None
+                    out.extend(node.body[ph.i + 1 :])
+                    return out
+            return out
+
+        def build_until(i: int, stop: int) -> list:
+            out: list = []
+            while i < stop:
+                k = kinds[i]
+                if k[0] == "plain":
+                    out.append(node.body[i])
+                    i += 1
+                    continue
+                if k[0] == "push":
+                    c, is_async = k[1], k[2]
+                    cb_call: ast.expr = ast.Call(func=c.args[0], args=list(c.args[1:]), keywords=[])
+                    if is_async:
+                        cb_call = ast.Await(value=cb_call)
+                    h = ast.ExceptHandler(type=ast.Name(id="BaseException", ctx=ast.Load()), name=None, body=[ast.Expr(value=cb_call), ast.Raise(exc=None, cause=None)])
+                    out.append(ast.Try(body=build_until(i + 1, stop) or [ast.Pass()], handlers=[h], orelse=[], finalbody=[]))
+                    return out
+                raise _Unsupported
+            return out
+
+        try:
+            try:
+                new = build(0)
+            except _PopHere as ph:
+                # pop_all() before any registration: nothing to run
+                new = [s for j, s in enumerate(node.body) if j != ph.i]
+                if any(kinds[j][0] != "plain" for j in range(len(kinds)) if j != ph.i):
+                    return None
+        except _Unsupported:
+            return None
+        for s in new:
+            for n in ast.walk(s):
+                if not hasattr(n, "lineno"):
+                    ast.copy_location(n, node)
+        self.count += 1
+        return new or [ast.copy_location(ast.Pass(), node)]
+
+    def visit_AsyncWith(self, node):
+        self.generic_visit(node)
+        r = self._rewrite(node)
+        return r if r is not None else node
+
+    visit_With = visit_AsyncWith
+
+
+class _PopHere(Exception):
+    def __init__(self, i: int) -> None:
+        self.i = i
+
+
+class _Unsupported(Exception):
+    pass
+
+
+def desugar(tree: ast.Module) -> ast.Module:
+    changed = _getter_constants(tree)
+    if any(isinstance(n, (ast.With, ast.AsyncWith)) and any(isinstance(c, ast.Call) and isinstance(c.func, (ast.Name, ast.Attribute)) and (c.func.id if isinstance(c.func, ast.Name) else c.func.attr) in _ExitStackDesugar.STACKS for it in n.items for c in [it.context_expr]) for n in ast.walk(tree)):
+        es = _ExitStackDesugar()
+        tree = es.visit(tree)
+        changed = changed or es.count > 0
     if any(isinstance(n, (ast.Match, ast.AnnAssign)) or (isinstance(n, ast.Return) and isinstance(n.value, ast.IfExp)) for n in ast.walk(tree)):
         tree = _Desugar().visit(tree)
         changed = True
     if any(isinstance(n, (ast.With, ast.AsyncWith)) for n in ast.walk(tree)):
+        sc = _StateCMDesugar(tree)
+        if sc.classes:
+            tree = sc.visit(tree)
+            changed = changed or sc.count > 0
         cm = _CMDesugar(tree)
         if cm.gens or cm.classes:
             tree = cm.visit(tree)
